@@ -25,6 +25,7 @@ type Dep struct {
 	Constr  string   // union constraint
 	StrIf   string   // method constraint: interface{ String() string }
 	Extra   []string // further plain named types (std)
+	GenAlias string  // generic alias over an unnamed type: type List[E any] = []E
 	Transient *Dep   // Embed mentions types of this package
 
 	SrcAlias string // alias the source files use: "" none, "." dot
@@ -100,6 +101,7 @@ type Tree struct {
 type Locals struct {
 	Struct, Func, Slice, Map, Chan, Gen, Key, Alias, StrIf, Union, Secret, Const, Emb, EmbMethod string
 	GenBase string // generic local interface usable for embedding
+	GenStore string // generic local interface with two parameters (instantiated through aliases / defined types)
 }
 
 // Param is a parameter or result.
@@ -134,6 +136,7 @@ type Iface struct {
 	File       int
 	Exportable bool // can be mocked into another package
 	IsAlias    bool // declared as `type Name = Other`
+	IsDefined  bool // declared as `type Name Other` (defined type over an interface type)
 	AliasOf    string
 	NeedsSkipEnsure bool // only valid with -skip-ensure (hazard i shapes)
 	Tags       []string
@@ -213,7 +216,7 @@ var (
 	depParentPool = []string{"a", "b", "c", "x/y", "internal/z", "pkg", "c/b", "third_party/a", "lib.v2", "go-kit", "kit-go"}
 	structNamePool = []string{"Thing", "Client", "Request", "Config", "Item", "Record", "T"}
 	localStructPool = []string{"Person", "Account", "Order", "Entry", "Node"}
-	srcNamePool   = []string{"store", "svc", "domain", "repo", "core"}
+	srcNamePool   = []string{"store", "svc", "domain", "repo", "core", "sync", "http"}
 )
 
 // dirForms gives directory spellings that all carry package name n.
@@ -308,13 +311,17 @@ func (b *builder) makeDeps() {
 		d := &Dep{
 			Path: t.ModPath + "/" + dir, Dir: dir, Name: name, UID: uid,
 			Struct: b.pick(structNamePool), Ifaces: []string{"Iface"}, Embed: "Emb" + uid, EmbedMethods: []string{"Em" + uid},
-			Func: "Func", Gen: "Gen", Num: "Num", Constr: "Constr", StrIf: "Str",
+			Func: "Func", Gen: "Gen", Num: "Num", Constr: "Constr", StrIf: "Str", GenAlias: "List",
 		}
 		if len(t.Deps) > 0 && b.chance(0.35) {
 			d.Transient = t.Deps[b.rng.Intn(len(t.Deps))]
 		}
 		if b.chance(b.prof.Aliases) {
 			d.SrcAlias = b.pick([]string{name + "x", "my" + name, "p" + uid, name + "2", "s", "err", "ctx", "n", "v1"})
+			// an alias equal to the last path element while the package name differs (v2 ".../lib/v2", foo_impl)
+			if base := dir[strings.LastIndex(dir, "/")+1:]; base != name && isIdent(base) && b.chance(0.4) {
+				d.SrcAlias = base
+			}
 			if b.chance(0.15) {
 				d.SrcAlias = "."
 			}
@@ -359,6 +366,7 @@ func (b *builder) makeDeps() {
 			d.Ifaces = []string{"Dot" + d.UID + "Iface"}
 			d.Func = "Dot" + d.UID + "Func"
 			d.Gen = "Dot" + d.UID + "Gen"
+			d.GenAlias = "Dot" + d.UID + "List"
 			d.Num = "Dot" + d.UID + "Num"
 			d.Constr = "Dot" + d.UID + "Constr"
 			d.StrIf = "Dot" + d.UID + "Str"
@@ -393,6 +401,7 @@ func (b *builder) makeLocals() {
 	l.Emb = "LocalEmb"
 	l.EmbMethod = "LocalEm"
 	l.GenBase = "GenBase"
+	l.GenStore = "GenStore"
 }
 
 func (b *builder) depSource(d *Dep) string {
@@ -405,6 +414,9 @@ func (b *builder) depSource(d *Dep) string {
 	fmt.Fprintf(&s, "type %s interface{ M%s() string }\n\n", d.Ifaces[0], d.UID)
 	fmt.Fprintf(&s, "type %s func(int) string\n\n", d.Func)
 	fmt.Fprintf(&s, "type %s[E any] struct{ E E }\n\n", d.Gen)
+	if !d.Std && d.GenAlias != "" {
+		fmt.Fprintf(&s, "type %s[E any] = []E\n\n", d.GenAlias)
+	}
 	fmt.Fprintf(&s, "type %s int\n\nfunc (n %s) String() string { return \"\" }\n\n", d.Num, d.Num)
 	fmt.Fprintf(&s, "type %s interface{ ~int | ~string }\n\n", d.Constr)
 	fmt.Fprintf(&s, "type %s interface{ String() string }\n\n", d.StrIf)
@@ -431,14 +443,15 @@ func (b *builder) render() {
 	fmt.Fprintf(&ty, "type %s map[string]int\n\n", l.Map)
 	fmt.Fprintf(&ty, "type %s chan int\n\n", l.Chan)
 	fmt.Fprintf(&ty, "type %s[T any] struct{ V T }\n\n", l.Gen)
-	fmt.Fprintf(&ty, "type %s int\n\nfunc (%s) String() string { return \"\" }\n\n", l.Key, l.Key)
+	fmt.Fprintf(&ty, "type %s int\n\nfunc (%s) String() string { return \"\" }\n\nfunc (k %s) Less(o %s) bool { return k < o }\n\n", l.Key, l.Key, l.Key, l.Key)
 	fmt.Fprintf(&ty, "type %s = %s\n\n", l.Alias, l.Struct)
 	fmt.Fprintf(&ty, "type %s interface{ String() string }\n\n", l.StrIf)
 	fmt.Fprintf(&ty, "type %s interface{ ~int | ~float64 }\n\n", l.Union)
 	fmt.Fprintf(&ty, "type %s struct{ v int }\n\n", l.Secret)
 	fmt.Fprintf(&ty, "const %s = 4\n\n", l.Const)
 	fmt.Fprintf(&ty, "type %s interface{ %s(p %s) error }\n\n", l.Emb, l.EmbMethod, l.Struct)
-	fmt.Fprintf(&ty, "type %s[T any] interface{ Base(x T) T }\n", l.GenBase)
+	fmt.Fprintf(&ty, "type %s[T any] interface{ Base(x T) T }\n\n", l.GenBase)
+	fmt.Fprintf(&ty, "type %s[K comparable, V any] interface {\n\tLoad(k K) (V, bool)\n\tStore(k K, v V) error\n}\n", l.GenStore)
 	t.Files[t.SrcDir+"/types.go"] = ty.String()
 
 	nfiles := 1
@@ -539,6 +552,9 @@ func (i *Iface) Source(q Qual) string {
 	if i.IsAlias {
 		return fmt.Sprintf("type %s = %s\n", i.Name, i.AliasOf)
 	}
+	if i.IsDefined {
+		return fmt.Sprintf("type %s %s\n", i.Name, i.AliasOf)
+	}
 	var s strings.Builder
 	s.WriteString("type " + i.Name)
 	if len(i.TParams) > 0 {
@@ -602,4 +618,16 @@ func assumedName(importPath string) string {
 		}
 	}
 	return base
+}
+
+func isIdent(s string) bool {
+	if s == "" || goKeywords[s] {
+		return false
+	}
+	for i, r := range s {
+		if !(r == '_' || r >= 'a' && r <= 'z' || r >= 'A' && r <= 'Z' || (i > 0 && r >= '0' && r <= '9')) {
+			return false
+		}
+	}
+	return true
 }
